@@ -1339,7 +1339,7 @@ def c18_u5(ctx):
         n += 1
         key = "RecvTransaction::%s:prepare_finished" % f.name
         dom = dominators(f)
-        eb = ExprBuilder(ctx.prog, f)
+        eb = ExprBuilder(ctx.prog, f, look_through=False)  # flag variables are examined definition by definition
         verdicts = []
         for sb in f.live_blocks():
             st = f.blocks[sb]["term"]
